@@ -480,7 +480,7 @@ class C23(Prop):
                    "tightness of a returned interval is not part of the statement: widths are only counted",
                    "evidence is documented as unsupported by kbest/explain: programs with evidence are not enumerated"]
     families = {"quick": [("F2.3", 192), ("F3.1", 16), ("F2.2", 12), ("F1.1", 10), ("F1.1one", 8), ("F1.1dup", 6), ("F2.1", 2)],
-                "thorough": [("F1.1one", 8), ("F2.4", 192), ("F1.2q", 256), ("F3.2", 128), ("F1.3s", 128), ("F2.3", 192), ("F3.1", 16),
+                "thorough": [("F1.1one", 8), ("F2.4/16", 48), ("F1.2q/4", 64), ("F3.2/4", 64), ("F1.3s/4", 64), ("F2.3", 192), ("F3.1", 16),
                              ("F2.2", 12), ("F1.1", 10), ("F1.1dup", 6), ("F2.1", 2)]}
     budget = {"quick": 600, "thorough": 3600}
 
